@@ -1,7 +1,7 @@
 import json
 import os
 
-ROOT = "/verif"
+ROOT = os.path.dirname(os.path.dirname(os.path.abspath(__file__)))
 
 
 def write_evidence(prop, tier, seed, plan, results, classes, wall, n_viol):
